@@ -16,7 +16,8 @@ type Scenario struct {
 	EncVia   string `json:"enc_via,omitempty"` // "option" | "dsn" | "env"
 	Logger   string `json:"logger"`            // "discard" | "text" | "json"
 	SWRSet   bool   `json:"swr_set,omitempty"`
-	TZMin    int    `json:"tz_min,omitempty"` // offset of the process time zone from UTC in minutes (time.Local during the run)
+	MaxConns int    `json:"max_conns,omitempty"` // >0: the upstream transport keeps at most this many connections (net/http MaxConnsPerHost): a response body holds one until it is read to its end, fails, is closed, or its request context ends
+	TZMin    int    `json:"tz_min,omitempty"`    // offset of the process time zone from UTC in minutes (time.Local during the run)
 	SWRNs    int64  `json:"swr_ns,omitempty"`
 	Jitter   bool   `json:"jitter,omitempty"` // nanosecond jitter in durations (else whole seconds)
 	StoreLat int64  `json:"store_lat_ns,omitempty"`
